@@ -15,7 +15,7 @@ RULE = ("point clouds (1-D and 2-D arrays, optionally with an ignored third coor
         "outside the region on every side and diagonal (nearest border block demanded), degenerate and invalid arguments. "
         "2-D inputs (and the extra coordinate) come in varied memory layouts with the same logical element sequence - C, Fortran-ordered "
         "copies, transposed views of transposed copies, strided windows of larger C / Fortran arrays, slices of transposed views, easting "
-        "and northing with different layouts, non-square shapes - and integer-valued lattice clouds also as int64 / int32 arrays; the model "
+        "and northing with different layouts, non-square shapes - and integer-valued lattice clouds also as int64 / int32 arrays; easting, northing and the extra coordinate also with DIFFERENT dtypes (int32/int64/float32/float64 in all orders) and values needing the wider type (fractions next to integers, 7.5e6 + fractions next to float32), regions also smaller than the data extent with both adjust modes; the model "
         "always receives the logical C-order ravel. Every call is made twice on the same argument objects (identical result, arguments "
         "unchanged). Non-trivial = the call returns labels for a non-empty cloud; distinct = distinct argument tuples. Points within 2^-30 x scale "
         "of a shared edge are excluded point-wise from the label equality (the statement is still evaluated on them); cases whose "
@@ -239,6 +239,20 @@ def generate(tier, seed):
             cases.append(block_case(vd, spec, 2.5, 0, None, None, "layout-grid"))
             spec = [(g[0][:4].tolist(), ke, "float64"), (g[1][:4].tolist(), kn, "float64")]
             cases.append(block_case(vd, spec, None, 0, (-5.0, 0.0, 5.0, 10.0), (3, 2), "layout-grid"))
+    # easting, northing (and the extra coordinate) of different dtypes, values needing the wider one; regions given
+    # (also smaller than the data extent, both adjust modes) or - without float32 coordinates - inferred
+    for i in range(nper // 2):
+        m = rnd.choice([4, 6, 6, 8, 10, 12, 12, 15])
+        we, hn = rnd.choice([4, 6, 8]), rnd.choice([3, 5, 6])
+        arrs, dts, be, bn = layouts.mixed_axes(rnd, m, we, hn, spill=rnd.choice([0.0, 0.25]))
+        inferred = "float32" not in dts[:2] and rnd.random() < 0.3
+        reg = None if inferred else (be, be + we, bn, bn + hn)
+        if rnd.random() < 0.6:
+            sp, sh, adj = rnd.choice([1.0, 1.5, 2.0, (1.0, 2.0), (2.5, 1.25)]), None, rnd.choice([0, 1])
+        else:
+            sp, sh, adj = None, rnd.choice([(2, 3), (3, 2), (3, 4), (1, 4), (5, 1)]), 0
+        keep = 3 if i % 2 == 0 else 2
+        cases.append(block_case(vd, layouts.arrange(rnd, arrs[:keep], dt=dts[:keep]), sp, adj, reg, sh, "mixed-dtype"))
     # integer-valued lattice clouds passed with integer dtypes (1-D and 2-D, all layouts)
     for i in range(nper // 2):
         m = rnd.choice([4, 6, 6, 8, 10, 12, 12, 15])
